@@ -100,7 +100,15 @@ def rule_C5(ctx, prog, label, rule='C5'):
                   'm4ri_mmc_malloc (uninitialised, possibly recycled memory) is called directly by %s' % [c for c in callers if c != 'm4ri_mmc_calloc'], {}, label))
     # (4) m4ri_mm_calloc
     f = prog.func('m4ri_mm_calloc')
-    raw = [c for c in f.body.find('CallExpr') if callee_name(c) in ('_mm_malloc', 'posix_memalign', 'malloc', 'calloc')]
+    RAW = ('_mm_malloc', 'posix_memalign', 'malloc', 'calloc')
+
+    def _allocates(name, depth=0):
+        g_ = prog.funcs.get(name)
+        if g_ is None or g_.body is None or depth > 4 or name == f.name:
+            return False
+        return any(callee_name(c) in RAW or _allocates(callee_name(c), depth + 1) for c in g_.body.find('CallExpr'))
+    # a repo wrapper that allocates counts as an allocator returning unzeroed memory
+    raw = [c for c in f.body.find('CallExpr') if callee_name(c) in RAW or _allocates(callee_name(c))]
     rr.instances += 1
     if not raw:
         raise AnalysisBroken('C5: no raw allocation in m4ri_mm_calloc')
